@@ -217,9 +217,13 @@ class Runner:
     def lean_step(self):
         chk, prop = self.chk, self.chk.prop
         gen_changed = []
+        self._gen_backup = {}
         for rel, content in (chk.translate() or {}).items():
-            if L.write_if_changed(os.path.join(LEAN, rel), content):
+            path = os.path.join(LEAN, rel)
+            old = open(path).read() if os.path.exists(path) else None
+            if L.write_if_changed(path, content):
                 gen_changed.append(rel)
+                self._gen_backup[path] = old
         self.gen_changed = gen_changed
         ok_props, ok_exe, log = L.build(prop, want_exe=chk.has_model)
         self.build_log = log
@@ -263,12 +267,21 @@ class Runner:
         res, bad = [], 0
         for c in cases:
             r = _eval_case(c); res.append(r)
-            if r is not None and r[1]:
+            if r is not None and any(self.chk.known(c, r[0], f) not in self.known_db for f in r[1]):
                 bad += 1
                 if bad >= 3: break          # enough failing inputs: stop early (zip() below truncates)
         return res
 
     def run(self):
+        try:
+            return self._run()
+        finally:
+            # a run against a scratch worktree (VERIF_REPO) must not leave its regenerated tables in the shared tree
+            if REPO != "/repo":
+                for path, old in getattr(self, "_gen_backup", {}).items():
+                    if old is not None: L.write_if_changed(path, old)
+
+    def _run(self):
         global _CHECK
         chk = self.chk; _CHECK = chk
         rng = Rng(self.seed)
@@ -457,11 +470,10 @@ class Runner:
             for c in chk.shrink_candidates(case):
                 tries += 1
                 if tries >= limit: break
-                try:
-                    o = chk.impl(c)
-                except Exception:
-                    continue
-                fs = [x for x in chk.oracle(c, o) if not (chk.known(c, o, x) in self.known_db)]
+                r = _eval_case(c)         # guarded by case_timeout
+                if r is None or (isinstance(r[0], dict) and "__exc__" in r[0]): continue
+                o = r[0]
+                fs = [x for x in r[1] if not (chk.known(c, o, x) in self.known_db)]
                 if fs:
                     case, obs, f = c, o, fs[0]; progress = True; break
         return case, obs, f
@@ -474,8 +486,11 @@ class Runner:
             for c in chk.shrink_candidates(case):
                 tries += 1
                 if tries >= limit: break
+                r = _eval_case(c)
+                if r is None or (isinstance(r[0], dict) and ("__exc__" in r[0] or "__timeout__" in r[0])): continue
+                o = r[0]
                 try:
-                    o = chk.impl(c); m = self.single_model(c)
+                    m = self.single_model(c)
                 except Exception:
                     continue
                 if m is None: continue
